@@ -127,6 +127,7 @@ class JsonTables:
                 self.export_func[cn] = ex
                 self.export[cn] = self._export_keys(cn, ex)
         self._readers()
+        self._readers_by_interpretation()
         self._project()
 
     # -- exporters -------------------------------------------------------------------------
@@ -235,6 +236,94 @@ class JsonTables:
                 if isinstance(n, ast.Subscript) and isinstance(n.value, ast.Name) and n.value.id == pname and isinstance(n.slice, ast.Constant):
                     ks.add(n.slice.value)
             self.read_keys[cn] = ks
+
+    def _readers_by_interpretation(self):
+        """Fallback for readers whose shape is data (key tables, generic builders, decoder tables): the reader is *interpreted* with a
+        symbolic JSON value; every constructor call it makes is an event whose arguments name the JSON key they were read from.  Used
+        only for exported classes for which the syntactic extraction above found no constructor call."""
+        import re
+        from .common import mk_interp, flatten
+        from .interp import Unk, Call, Obj, ListV, CollV, Const, EnumSet, Poly
+        r = self.ctx.repo
+        missing = [cn for cn in self.export if cn not in self.read and cn in self.ctor and cn != PROJECT]
+        if not missing:
+            return
+        enum_names = {n for n, c in r.classes.items() if c.enum_members is not None}
+
+        def hook(I, call, st, fr):
+            f = call.func
+            name = f.id if isinstance(f, ast.Name) else None
+            if name in enum_names and len(call.args) == 1 and not call.keywords:
+                v = I.eval(call.args[0], st, fr)
+                if isinstance(v, Unk) and "JSON" in v.tag:
+                    return Unk(f"enum:{name}({v.tag})")
+            if ast.unparse(f).endswith("timedelta") and not call.args:
+                for kw in call.keywords:
+                    if kw.arg == "seconds":
+                        v = I.eval(kw.value, st, fr)
+                        if isinstance(v, Unk) and "JSON" in v.tag:
+                            return Unk(f"timedelta-seconds({v.tag})")
+            if ast.unparse(f).endswith("strptime") and call.args:
+                v = I.eval(call.args[0], st, fr)
+                if isinstance(v, Unk) and "JSON" in v.tag:
+                    return Unk(f"strptime({v.tag})")
+            return None
+
+        def shape_of(v):
+            if not isinstance(v, Unk):
+                return None
+            t = v.tag
+            m = re.fullmatch(r"list-of:enum:(\w+)\((?:float\()?JSON.*\['(\w+)'\]\[\*\]\)?\)", t)
+            if m:
+                return ("list-enum:" + m.group(1), m.group(2))
+            m = re.fullmatch(r"enum:(\w+)\(JSON.*\['(\w+)'\]\)", t)
+            if m:
+                return ("enum:" + m.group(1), m.group(2))
+            m = re.fullmatch(r"timedelta-seconds\(float\(JSON.*\['(\w+)'\]\)\)", t)
+            if m:
+                return ("timedelta-seconds", m.group(1))
+            m = re.fullmatch(r"strptime\(JSON.*\['(\w+)'\]\)", t)
+            if m:
+                return ("strptime", m.group(1))
+            m = re.fullmatch(r"JSON.*\['(\w+)'\]", t)
+            if m:
+                return ("identity", m.group(1))
+            return None
+        for f in r.all_funcs():
+            if f.name != "read_json_data" or f.cls not in r.classes:
+                continue
+            pname = f.params[1] if len(f.params) > 1 else None
+            if pname is None:
+                continue
+            I = mk_interp(self.ctx, call_hook=hook, max_paths=4000)
+            I.name_comprehensions = True
+            try:
+                outs = I.run_function(f, bind={pname: Unk("JSON", ("dict", None, None))})
+            except AnalysisError:
+                continue
+            for st, ex in outs:
+                for e in flatten(st.trace):
+                    if not (isinstance(e, Call) and e.callees and len(e.callees) == 1 and e.callees[0].endswith(".__init__")):
+                        continue
+                    cn = e.callees[0].split(".")[0]
+                    if cn not in missing or cn in self.read and self.read_site.get(cn, (None, None))[1] is not e.node and len(self.read[cn]) >= len(e.args):
+                        continue
+                    ctor = self.ctor[cn]
+                    params, keys = {}, set()
+                    for k, v in e.args.items():
+                        pn = ctor[k] if isinstance(k, int) and k < len(ctor) else k
+                        if not isinstance(pn, str) or pn.startswith("__"):
+                            continue
+                        sh = shape_of(v)
+                        if sh is None:
+                            sh = ("local:" + pn, None) if isinstance(v, (Obj, ListV, CollV)) else ("other:" + repr(v)[:40], None)
+                        params[pn] = sh + (e.node,)
+                        if sh[1]:
+                            keys.add(sh[1])
+                    if len([1 for v in params.values() if v[1]]) >= 3:
+                        self.read[cn] = params
+                        self.read_keys[cn] = keys
+                        self.read_site[cn] = (f, e.node)
 
     def _project(self):
         r = self.ctx.repo
